@@ -465,6 +465,9 @@ func (st *State) mapLookup(m, k Val, commaOk bool, env *SpecEnv) Val {
 	for i, l := range ls {
 		h := st.heapTerm(vk(l.Path), l.Sort, true)
 		v.L[i] = Ite(has, Select(Select(h, m.L[0]), kt), zeroTerm(l.Sort))
+		if l.Role == "ref" || l.Role == "arr" {
+			st.mapOldAxiom(vk(l.Path))
+		}
 	}
 	st.decorate(&v)
 	if env != nil {
@@ -476,6 +479,32 @@ func (st *State) mapLookup(m, k Val, commaOk bool, env *SpecEnv) Val {
 		return Val{T: types.NewTuple(), Tup: []Val{v, boolVal(has)}}
 	}
 	return v
+}
+
+// mapOldAxiom: every reference stored in a map at function entry (or at the last
+// havoc of the component) denotes an object that existed then. Stated once per
+// base version, as a quantified fact that is only included in queries that
+// mention that version.
+func (st *State) mapOldAxiom(key string) {
+	ent := st.entry
+	if ent == nil {
+		ent = st
+	}
+	base, ok := ent.heap[key]
+	bound := Term{"A0", SInt}
+	if bi, hav := st.baseVer[key]; hav {
+		base, bound, ok = bi.ver, bi.bound, true
+	}
+	if !ok {
+		return
+	}
+	name := "mapold!" + base.S
+	if st.ctx.declSet[name] {
+		return
+	}
+	st.ctx.declSet[name] = true
+	txt := fmt.Sprintf("(assert (forall ((m Int) (k Int)) (! (<= (select (select %s m) k) %s) :pattern ((select (select %s m) k)))))", base.S, bound.S, base.S)
+	st.ctx.axioms = append(st.ctx.axioms, axiomText{name: name, text: txt, syms: []string{base.S}, src: "references stored in maps at entry denote objects that existed at entry"})
 }
 
 func (st *State) mapUpdate(m, k, v Val) {
